@@ -23,6 +23,10 @@ type relCtx struct {
 }
 
 func (c *relCtx) emit(e *R, doc any, o Obs, unordered bool) {
+	if hasEnum(e) && orderSensitive(e) {
+		c.sum.count("not-compared/enumeration-then-position")
+		return
+	}
 	c.id++
 	text := unparse(e)
 	u := "false"
@@ -43,7 +47,9 @@ func (c *relCtx) same(kind string, l, r *R, doc any) {
 	un := hasEnum(l) || hasEnum(r)
 	c.sum.count(kind)
 	c.sum.count("outcome/" + ol.Kind)
-	if !sameObs(ol, or_, un) {
+	if un && (orderSensitive(l) || orderSensitive(r)) {
+		c.sum.count("skipped-enumeration-then-position")
+	} else if !sameObs(ol, or_, un) {
 		c.sum.direct("identity "+kind, tl, doc, fmt.Sprintf("%q gives %s but %q gives %s", tl, describe(ol), tr, describe(or_)))
 	}
 	if ol.Kind == "val" && ol.Value != nil {
